@@ -114,3 +114,11 @@ Example demo_fault_in_postponement :
   map (fun c => (cid c, cph c, crecv c, cout c)) (conss s) =
   [(0, Done, [1]%Z, OFault); (1, Body, [1; 2]%Z, ONone)] /\ proj s = (false, [[]]).
 Proof. vm_compute. split; reflexivity. Qed.
+
+(** (A) the tie to /repo's current source: every function this property's models were transcribed from has, in the
+    tree this run is checking, the normalised source it had when the models were validated (hashes regenerated from
+    /repo into gen/Generated.v on every run; pins in gen/SourcePins.v).  A change to one of them invalidates the
+    transcription until it is re-validated. *)
+From UsimGen Require SourcePins Pin_C11.
+Theorem C11_modelled_source_unchanged : forallb SourcePins.pin_ok Pin_C11.pins = true.
+Proof. exact Pin_C11.src_unchanged. Qed.
